@@ -7,7 +7,7 @@ Python function ↔ definition here (all over exact rationals `Rat`):
 * `HyMMSBM.C`, `_C_prime`, `_C_second`, `exp(log_kappa)`      ↔ `Cterm`/`C`, `Cprime`, `Csecond`, `kappa`
 * `expected_degree(per_node=True/False)`                      ↔ `expDegNode`, `expDegAvg`
 * `dimension_sequence(expected=True)`                         ↔ `expDimSeq`
-* `_w_update`, `_u_update`                                    ↔ `wUpdate`, `uUpdate` (+ guards `wUpdate?`, `uUpdate?`)
+* `_w_update`, `_u_update` (entry 0 where the denominator vanishes) ↔ `safeDiv`, `wUpdate`, `uUpdate` (+ guards `wUpdate?`, `uUpdate?`)
 * the loop of `fit`, its `fixed_w / fixed_u` flags, the inferred `max_hye_size`, the final division
                                                               ↔ `emStep`, `emLoop`, `finish`, `fit`
 * `fit(tolerance=, check_convergence_every=)`: the convergence test, `break`, `training_iter`,
@@ -142,8 +142,14 @@ def wNum (d : Data) (u w : Mat) (a b : Nat) : Rat :=
 def wDen (N : Nat) (u : Mat) (a b : Nat) : Rat :=
   half * (colSum N u a * colSum N u b - sumTo N fun i => u i a * u i b)
 
-/-- `_w_update`: `numerator / (denominator + w_prior)` -/
-def wUpdate (d : Data) (u w r : Mat) : Mat := fun a b => wNum d u w a b / (wDen d.N u a b + r a b)
+/-- the guarded division of the two multiplicative updates (repair of D46):
+`np.divide(numerator, denominator, out=np.zeros_like(numerator), where=denominator > 0)` for one entry -
+an entry whose denominator vanishes is set to 0, no `0 / 0`.  (Stated as a branch of its own and not through
+`x / 0 = 0` of `Rat`: `C15_update_vanishing_den` shows that the numerator vanishes on that branch.) -/
+def safeDiv (x y : Rat) : Rat := if 0 < y then x / y else 0
+
+/-- `_w_update`: `numerator / (denominator + w_prior)`, `0` where `denominator + w_prior` is not positive -/
+def wUpdate (d : Data) (u w r : Mat) : Mat := fun a b => safeDiv (wNum d u w a b) (wDen d.N u a b + r a b)
 
 /-- numerator of `_u_update` -/
 def uNum (d : Data) (u w : Mat) (i a : Nat) : Rat :=
@@ -155,25 +161,21 @@ def uNum (d : Data) (u w : Mat) (i a : Nat) : Rat :=
 def uDen (d : Data) (u w : Mat) (i a : Nat) : Rat :=
   (sumTo d.K fun c => w a c * colSum d.N u c) - sumTo d.K fun c => u i c * w c a
 
-/-- `_u_update`: `numerator / (denominator + u_prior)` -/
-def uUpdate (d : Data) (u w r : Mat) : Mat := fun i a => uNum d u w i a / (uDen d u w i a + r i a)
+/-- `_u_update`: `numerator / (denominator + u_prior)`, `0` where `denominator + u_prior` is not positive -/
+def uUpdate (d : Data) (u w r : Mat) : Mat := fun i a => safeDiv (uNum d u w i a) (uDen d u w i a + r i a)
 
 def allTo (n : Nat) (p : Nat → Bool) : Bool := (List.range n).all p
 
-/-- no division by zero in `_w_update` (numpy would produce `inf`/`nan`) -/
-def wUpdateOk (d : Data) (u w r : Mat) : Bool :=
-  allTo d.E (fun e => decide (poisson d.N d.K u w (d.edge e) ≠ 0)) &&
-  allTo d.K (fun a => allTo d.K fun b => decide (wDen d.N u a b + r a b ≠ 0))
-
-def uUpdateOk (d : Data) (u w r : Mat) : Bool :=
-  allTo d.E (fun e => decide (poisson d.N d.K u w (d.edge e) ≠ 0)) &&
-  allTo d.N (fun i => allTo d.K fun a => decide (uDen d u w i a + r i a ≠ 0))
+/-- no division by zero in `multiplier = hye_weights / poisson_params` (numpy would produce `inf`/`nan`, exact
+arithmetic raises); the division by the denominators is guarded by the code itself (`safeDiv`) -/
+def multOk (d : Data) (u w : Mat) : Bool :=
+  allTo d.E (fun e => decide (poisson d.N d.K u w (d.edge e) ≠ 0))
 
 def wUpdate? (d : Data) (u w r : Mat) : Option Mat :=
-  if wUpdateOk d u w r then some (wUpdate d u w r) else none
+  if multOk d u w then some (wUpdate d u w r) else none
 
 def uUpdate? (d : Data) (u w r : Mat) : Option Mat :=
-  if uUpdateOk d u w r then some (uUpdate d u w r) else none
+  if multOk d u w then some (uUpdate d u w r) else none
 
 /-! ## `fit` -/
 
